@@ -154,6 +154,19 @@ func derivesFrom(r, e ssa.Value, depth int) bool {
 		}
 	case *ssa.MakeInterface:
 		return derivesFrom(x.X, e, depth+1)
+	case *ssa.Alloc:
+		// &errType{cause: e, …}: a fresh value one of whose fields is given the error
+		for _, r := range nonDebugRefs(x) {
+			fa, ok := r.(*ssa.FieldAddr)
+			if !ok {
+				continue
+			}
+			for _, rr := range nonDebugRefs(fa) {
+				if st, ok := rr.(*ssa.Store); ok && st.Addr == ssa.Value(fa) && isErrorType(st.Val.Type()) && (st.Val == e || derivesFrom(st.Val, e, depth+1)) {
+					return true
+				}
+			}
+		}
 	case *ssa.ChangeInterface:
 		return derivesFrom(x.X, e, depth+1)
 	case *ssa.Call:
@@ -162,6 +175,27 @@ func derivesFrom(r, e ssa.Value, depth int) bool {
 			return false
 		}
 		n := sc.String()
+		// a constructor of the module's own error type: the result wraps (stores in a field of a
+		// fresh value) the parameter the error is passed for
+		if sc.Blocks != nil && depth < 3 {
+			for i, ar := range x.Call.Args {
+				if !(ar == e || derivesFrom(ar, e, depth+1)) || i >= len(sc.Params) {
+					continue
+				}
+				for _, b := range sc.Blocks {
+					if len(b.Instrs) == 0 {
+						continue
+					}
+					if ret, ok := b.Instrs[len(b.Instrs)-1].(*ssa.Return); ok {
+						for _, res := range ret.Results {
+							if isErrorType(res.Type()) && derivesFrom(res, sc.Params[i], depth+1) {
+								return true
+							}
+						}
+					}
+				}
+			}
+		}
 		if n == "fmt.Errorf" || strings.HasPrefix(n, "errors.") {
 			for _, ar := range x.Call.Args {
 				if va, ok := varargs(ar); ok {
